@@ -169,6 +169,20 @@ def q_local_sanitized(F, cg, rep):
             for o in mir.trace_op(f, t[2][0], transparent=mir.TRANSPARENT + ("ToString>::to_string",)):
                 if o.kind == "call" and "Split" in (f.blocks[o.data]["t"][1].get("full") or "") and (mir.callee(f.blocks[o.data]["t"]) or "").endswith("::next"): ok_chain = True
     splits = [mir.const_arg(f, t[2][1]) for bi, t in f.calls() if (mir.callee(t) or "").endswith("str>::split")]
+    if not ok_chain:
+        # `value.split('.').filter(..).map(Self::segment_from_part)`: the unwrap lives in a private helper that receives the item
+        for p_, h_ in F.fns.items():
+            if not p_.startswith("crate::version::pep440::from_zerv::") or h_.kind == "closure" or h_ is f: continue
+            scope_ = [h_] + F.children(p_)
+            if not any((mir.callee(t) or "").endswith("LocalSegment::try_new_str") for g_ in scope_ for bi, t in g_.calls()): continue
+            users = {q for q, xs in cg.addr.items() if p_ in xs} | {g.path for g, b2 in cg.sites.get(p_, [])}
+            if users != {f.path}: continue
+            from_param = all(any(o.kind in ("param", "upvar") for o in mir.trace_op(g_, t[2][0], transparent=mir.TRANSPARENT + ("ToString>::to_string",)))
+                             for g_ in scope_ for bi, t in g_.calls() if (mir.callee(t) or "").endswith("LocalSegment::try_new_str"))
+            for bi, t in f.calls():
+                if not (mir.callee(t) or "").endswith("Iterator>::map") and not (mir.callee(t) or "").endswith("Iterator::map"): continue
+                if not any(a_[0] == "c" and a_[1].get("k") == "fn" and a_[1].get("path") == p_ for a_ in t[2]): continue
+                if from_param and any(k == "call" and d.isdigit() and (mir.callee(f.blocks[int(d)]["t"]) or "").endswith("str>::split") for k, d in mir.deep_origins(f, t[2][0], stop=())): ok_chain = True
     # try_new_str only fails when the sanitised text contains '.'
     tn = [x for x in F.find("LocalSegment::try_new_str") if x.kind == "assoc"]
     ok_err = False
@@ -325,6 +339,9 @@ AUDIT = [
     ("ZervSchemaPreset::schema:call:panic#0", "wildcard arm only covers variants handled by schema_with_zerv", q_preset_coverage),
     ("ZervSchemaPreset::with_build_context:call:unwrap#0", "set_build on schemas that are constants of the program", q_callers_constant("ZervSchemaPreset::with_build_context", 1)),
     ("PEP440>::add_flattened_to_local:call:unwrap#0", "segments of a sanitised value contain no '.'", q_local_sanitized),
+    # the same unwrap inside a private helper (or its closure) of the from_zerv module that add_flattened_to_local maps over the split items
+    (lambda s: s.kind == "call:unwrap" and s.fn.path.startswith("crate::version::pep440::from_zerv::") and "add_flattened_to_local" not in s.fn.path and any(o.kind == "call" and (mir.callee(o.fn.blocks[o.data]["t"]) or "").endswith("LocalSegment::try_new_str") for o in mir.trace_op(s.fn, s.detail[2][0], transparent=())),
+     "segments of a sanitised value contain no '.'", q_local_sanitized),
     # matched by what the site is (unwrap of a LocalSegment::try_new_str result anywhere in the PEP 440 parser module), not by where it lives
     (lambda s: s.kind == "call:unwrap" and s.fn.path.startswith("crate::version::pep440::parser::") and any(o.kind == "call" and (mir.callee(o.fn.blocks[o.data]["t"]) or "").endswith("LocalSegment::try_new_str") for o in mir.trace_op(s.fn, s.detail[2][0], transparent=())),
      "segments come from the regex's local group", q_local_from_regex),
